@@ -372,6 +372,20 @@ def run(ctx) -> None:
         else:
             why = "early start only on the path 'no decision and gate not in node_executions'"
     rep.add("C03.R6", f"{gan.qname}:early-start-guard", ok, gan.loc(), why)
+    # the option consulted is that of the very gate that has not decided: it is read per gate inside the loop over the
+    # controlling gates, never quantified over all of them (one default-open sibling must not open a closed gate's target)
+    def _do_reads(f):
+        return [x for x in ast.walk(f.node) if (isinstance(x, ast.Attribute) and x.attr == "default_open") or (isinstance(x, ast.Call) and dotted(x.func) == "getattr" and len(x.args) >= 2 and isinstance(x.args[1], ast.Constant) and x.args[1].value == "default_open")]
+
+    wrong = None
+    for g_ in db.closure([gan], property_reads=False):
+        if g_.module is not gan.module:
+            continue
+        for x in _do_reads(g_):
+            quant = next((a for a in ancestors(x) if isinstance(a, (ast.GeneratorExp, ast.ListComp, ast.SetComp))), None)
+            if g_ is not gan or quant is not None:
+                wrong = wrong or (g_, x, quant)
+    rep.add("C03.R6", f"{gan.qname}:option-of-the-undecided-gate", wrong is None, f"{gan.module.rel}:{(wrong[1] if wrong else gan.node).lineno}", "default_open is read from the gate under test, inside the per-gate loop" if wrong is None else f"default_open is resolved in {wrong[0].name} {'over all controlling gates at once' if wrong[2] is not None else 'outside the per-gate test'} ('{src(wrong[2] or wrong[1])[:70]}'): an undecided closed gate is treated as open when a sibling gate controlling the same target is default-open — the shared target starts although no most-recent decision names it")
 
 
 def check_ready_conjunction(ctx, rule: str) -> None:
